@@ -98,6 +98,16 @@ def clause1_value(ctx, P):
             return atom[0] == "cmp" and atom[2][0] == "call" and atom[2][3] == c.id and atom[3] == ("const", 0)
         tested = any(refused(a, p) for v in Q.path_views(ctx, P, f) for (a, p) in v.atoms)
         ctx.ob("C14.1 R-GATE", f, Q.ordinal_site(f, c, P) + ":zero-is-refusal", tested, "%s ignores a refused timeout" % f.srcname)
+    # (c2) the conversion keeps the full precision: nanoseconds = (uint64)(seconds * 1e9), no intermediate truncation
+    conv_ns = P.fn("timer.c:convert_seconds_to_nsec")
+    okc = False
+    for v in Q.path_views(ctx, P, conv_ns):
+        t = P.term(conv_ns, v.ret_operand())
+        okc = t[0] == "op" and t[1] == "fptoui" and t[2][0][0] == "op" and t[2][0][1] == "fmul" and \
+            set(t[2][0][2]) == {("param", 0, conv_ns.params[0]["name"]), ("fp", 1000000000.0)}
+    ctx.ob("C14.1 R-PAIR", conv_ns, "nanoseconds-are-seconds-times-1e9", okc and len(Q.path_views(ctx, P, conv_ns)) == 1,
+           "the deadline is not (uint64_t)(seconds * 1e9): an intermediate rounding (e.g. to whole milliseconds) lets the timeout "
+           "error arrive before the requested deadline")
     # (d) clock and one-shot
     ti = P.fn("timer_linux.c:cjet_timer_init")
     mono = Q.macro(P, "timer_linux.c", "CLOCK_MONOTONIC")
@@ -203,6 +213,32 @@ def clause3_batch(ctx, P, cg):
            "while callbacks (%s) can release another entry of the same batch: a reply and the expiry of the same request becoming "
            "ready together dispatches a freed timer" % (len(disp), sorted(all_locs) or "the epoll batch", sorted(written), ", ".join(sorted(foreign)))
            if not ok else "dispatched entries come from a location remove() invalidates", detail={"dispatch_sites": len(disp)})
+    # the invalidation window is exactly the undispatched tail of the batch: [i+1, num_events)
+    from ..core import affine as A
+    win = {}
+    for i in he.all_insts():
+        if i.op == "store":
+            t = P.term(he, i.a[1])
+            if t[0] == "field" and t[2] == "struct.eventloop_epoll" and t[3] in ("pending_events", "num_pending_events"):
+                win[t[3]] = P.term(he, i.a[0])
+    if "pending_events" in win and "num_pending_events" in win:
+        ev_arr = ("param", 2, he.params[2]["name"])
+        nev = ("param", 1, he.params[1]["name"])
+        esz = P.structs["struct.epoll_event"]["size"]
+        d_start = A.diff(P, win["pending_events"], ev_arr)
+        d_cnt = A.norm(P, win["num_pending_events"])
+        okw = False
+        if d_start is not None and d_cnt is not None and len(d_start[0]) == 1:
+            (ik, ic), = d_start[0].items()
+            # start = (i + 1) * esz ; count = num_events - i - 1
+            okw = ic == esz and d_start[1] == esz and d_cnt[0].get(ik) == -1 and d_cnt[0].get(nev) == 1 and d_cnt[1] == -1 and len(d_cnt[0]) == 2
+        ctx.ob("C14.3 R-CURSOR", he, "pending-window-is-the-undispatched-tail", okw,
+               "the window remove() scans for harvested entries is not exactly events[i+1 .. num_events): start %s, count %s - the last "
+               "(or the current) entry of a batch is not invalidated when its object is released by an earlier callback" % (d_start, d_cnt))
+    elif not foreign:
+        pass
+    else:
+        ctx.ob("C14.3 R-CURSOR", he, "pending-window-is-the-undispatched-tail", all_ok, "no pending-window bookkeeping found")
     # the current-entry guard: after a read callback the write dispatch re-checks current_ev or the REMOVED verdict
     guards = 0
     for (i, t) in disp:
